@@ -1,1 +1,7 @@
+import EoNVerif.Props.C01
+import EoNVerif.Props.C02
+import EoNVerif.Props.C04
+import EoNVerif.Props.C05
+import EoNVerif.Props.C09
+import EoNVerif.Props.C10
 import EoNVerif.Props.C16
